@@ -3,21 +3,7 @@ import Secp.Proofs.FieldLimb
 # `Add`, `Sub`, `Opp`: generated code = reference (definitional), reference = arithmetic mod m
 -/
 
-theorem add_tie_p (x y : L4) : FiatField.add x y = refAdd Mp x y := by
-  unfold FiatField.add refAdd condSub Mp
-  simp only [cmov_tie_p]
-theorem add_tie_n (x y : L4) : FiatScalar.add x y = refAdd Mn x y := by
-  unfold FiatScalar.add refAdd condSub Mn
-  simp only [cmov_tie_n]
-theorem sub_tie_p (x y : L4) : FiatField.sub x y = refSub maskP x y := by
-  unfold FiatField.sub refSub maskP
-  simp only [cmov_tie_p]
-theorem sub_tie_n (x y : L4) : FiatScalar.sub x y = refSub maskN x y := by
-  unfold FiatScalar.sub refSub maskN
-  simp only [cmov_tie_n]
-theorem opp_tie_p (x : L4) : FiatField.opp x = refSub maskP ⟨0, 0, 0, 0⟩ x := by
-  unfold FiatField.opp refSub maskP
-  simp only [cmov_tie_p]
+
 
 theorem refAdd_correct (M : Modulus) (hM : M.Valid) (hMlt : M.val < W^4) (x y : L4) (hx : x.ok) (hy : y.ok)
     (hX : x.eval < M.val) (hY : y.eval < M.val) :
@@ -56,6 +42,7 @@ structure MaskOK (M : Modulus) (f : Nat → L4) : Prop where
   ones : f (W - 1) = ⟨M.m0, M.m1, M.m2, M.m3⟩
 
 theorem maskP_ok : MaskOK Mp maskP := ⟨by decide, by decide⟩
+
 theorem maskN_ok : MaskOK Mn maskN := ⟨by decide, by decide⟩
 
 theorem refSub_correct (M : Modulus) (hM : M.Valid) (hMlt : M.val < W^4) (f : Nat → L4) (hf : MaskOK M f)
@@ -152,27 +139,3 @@ theorem refSub_correct (M : Modulus) (hM : M.Valid) (hMlt : M.val < W^4) (f : Na
     have : A = X + Mv - Y := by simp only [hW4] at *; omega
     rw [this]
     exact (Nat.mod_eq_of_lt (by simp only [hW4] at *; omega)).symm
-
-theorem fieldAdd_correct (x y : L4) (hx : x.ok) (hy : y.ok) (hX : x.eval < Pnat) (hY : y.eval < Pnat) :
-    (FiatField.add x y).ok ∧ (FiatField.add x y).eval = (x.eval + y.eval) % Pnat := by
-  rw [add_tie_p, ← Mp_val]
-  exact refAdd_correct Mp Mp_valid Mp_lt x y hx hy (by rw [Mp_val]; exact hX) (by rw [Mp_val]; exact hY)
-theorem fieldSub_correct (x y : L4) (hx : x.ok) (hy : y.ok) (hX : x.eval < Pnat) (hY : y.eval < Pnat) :
-    (FiatField.sub x y).ok ∧ (FiatField.sub x y).eval = (x.eval + Pnat - y.eval) % Pnat := by
-  rw [sub_tie_p, ← Mp_val]
-  exact refSub_correct Mp Mp_valid Mp_lt maskP maskP_ok x y hx hy (by rw [Mp_val]; exact hX) (by rw [Mp_val]; exact hY)
-theorem fieldOpp_correct (x : L4) (hx : x.ok) (hX : x.eval < Pnat) :
-    (FiatField.opp x).ok ∧ (FiatField.opp x).eval = (Pnat - x.eval) % Pnat := by
-  rw [opp_tie_p, ← Mp_val]
-  have h := refSub_correct Mp Mp_valid Mp_lt maskP maskP_ok ⟨0, 0, 0, 0⟩ x ⟨W_pos, W_pos, W_pos, W_pos⟩ hx (by decide) (by rw [Mp_val]; exact hX)
-  have hz : (⟨0, 0, 0, 0⟩ : L4).eval = 0 := by decide
-  rw [hz, Nat.zero_add] at h
-  exact h
-theorem scalarAdd_correct (x y : L4) (hx : x.ok) (hy : y.ok) (hX : x.eval < Nnat) (hY : y.eval < Nnat) :
-    (FiatScalar.add x y).ok ∧ (FiatScalar.add x y).eval = (x.eval + y.eval) % Nnat := by
-  rw [add_tie_n, ← Mn_val]
-  exact refAdd_correct Mn Mn_valid Mn_lt x y hx hy (by rw [Mn_val]; exact hX) (by rw [Mn_val]; exact hY)
-theorem scalarSub_correct (x y : L4) (hx : x.ok) (hy : y.ok) (hX : x.eval < Nnat) (hY : y.eval < Nnat) :
-    (FiatScalar.sub x y).ok ∧ (FiatScalar.sub x y).eval = (x.eval + Nnat - y.eval) % Nnat := by
-  rw [sub_tie_n, ← Mn_val]
-  exact refSub_correct Mn Mn_valid Mn_lt maskN maskN_ok x y hx hy (by rw [Mn_val]; exact hX) (by rw [Mn_val]; exact hY)
